@@ -64,7 +64,10 @@ def execute(cmd, filename, timeout):
         proc.kill()
         logging.debug(f'[!!] timeout: terminated after {timeout:.2f} seconds')
         return RunInfo(proc.returncode, None, None, timeout)
-    return RunInfo(proc.returncode, out.decode(), err.decode(), runtime)
+    # The output need not be valid UTF-8: keep undecodable bytes apart (as
+    # Python does for command line arguments) instead of failing.
+    return RunInfo(proc.returncode, out.decode(errors='surrogateescape'),
+                   err.decode(errors='surrogateescape'), runtime)
 
 
 def matches_golden(golden, run, ignore_out, ignore_err, match_out, match_err):
